@@ -195,9 +195,11 @@ FailedExt(c) ==
   + Chk(<<"conj", c[1], c[2], "chain">> \in facts /\ <<"conj", c[1], c[2], "linear">> \in facts, "CERT_FAIL",
         "conjugate() = x^p (Frobenius constants)", c)
 
-Failed == FailedField("f64") + FailedField("f62") + FailedField("f128")
-          + FailedExt(<<"f64", 2>>) + FailedExt(<<"f64", 3>>) + FailedExt(<<"f62", 2>>) + FailedExt(<<"f62", 3>>)
-          + FailedExt(<<"f128", 2>>)
+\* one validation run per field (environment variable FIELD), so the three run in parallel
+Fld == IOEnv.FIELD
+Failed == FailedField(Fld)
+          + (IF Supported(Fld, 2) THEN FailedExt(<<Fld, 2>>) ELSE 0)
+          + (IF Supported(Fld, 3) THEN FailedExt(<<Fld, 3>>) ELSE 0)
 Conclusion == (l = Len(Rec) + 1) => PrintT(<<"CONCLUSION", Failed, Cardinality(facts)>>)
 
 \* ---- plan: what the recorder must ask the real code (Generate -> Record -> Validate) ---------------------
